@@ -107,6 +107,15 @@ class Probe(BaseComponent):
         # runs before HTTP._on_response: the method decides whether a body follows the header section
         self.log.append(['response', getattr(res.request, 'method', None), getattr(res.request.sock, 'n', -1)])
 
+    @handler('response', priority=-100)
+    def _rs_after(self, res, *a):
+        # runs after HTTP._on_response (which calls prepare()): the header fields the server meant to send, in order
+        try:
+            fields = [[str(k), str(v)] for k, v in res.headers.items()]
+        except Exception:
+            fields = None
+        self.log.append(['sent', getattr(res.request.sock, 'n', -1), fields])
+
     @handler('write', priority=100)
     def _w(self, sock, data):
         self.log.append(['write', sock.n, bytes(data)])
@@ -337,10 +346,10 @@ class _FS:
 
 
 STATUS_LINE = re.compile(rb'^HTTP/(\d)\.(\d) (\d{3}) [^\r\n\x00]*$')
-HEADER_LINE = re.compile(rb"^[!#$%&'*+\-.^_`|~0-9A-Za-z]+:[ \t]*[^\r\n\x00]*$")
+HEADER_LINE = re.compile(rb"^[!#$%&'*+\-.^_`|~0-9A-Za-z]+:[ \t]*[^\x00-\x08\x0a-\x1f\x7f]*$")
 
 
-def decode_responses(data, methods):
+def decode_responses(data, methods, intended=None):
     """bytes written to one socket during one operation -> ([[status, major, minor, says_close, problem|None]...])"""
     out = []
     k = 0
@@ -353,6 +362,16 @@ def decode_responses(data, methods):
         m = STATUS_LINE.match(lines[0])
         if not m:
             problem = 'status line %r is not HTTP/d.d ddd reason' % lines[0][:60]
+        # the head carries exactly the header lines the server set: nothing reflected from the request adds a line
+        if intended is not None and k < len(intended) and intended[k] is not None:
+            exp = intended[k]
+            if len(lines) - 1 != len(exp):
+                problem = problem or ('header-injection: the response head has %d header lines but the server set %d fields; lines %r' % (
+                    len(lines) - 1, len(exp), [ln[:40] for ln in lines[1:]][-4:]))
+            else:
+                for ln, (name, val) in zip(lines[1:], exp):
+                    if not ln.lower().startswith(name.lower().encode('latin-1', 'replace') + b':'):
+                        problem = problem or 'header-injection: header line %r is not the field %r the server set' % (ln[:60], name)
         for ln in lines[1:]:
             if not HEADER_LINE.match(ln):
                 problem = problem or 'header line %r is not field-name: value' % ln[:60]
@@ -452,7 +471,7 @@ def run_case(case):
                 elif rec[0] == 'exception':
                     effs.append(['X', rec[1], rec[2]])
                 prev = rec[0]
-            resps = decode_responses(wbytes, methods)
+            resps = decode_responses(wbytes, methods, [rec[2] for rec in new if rec[0] == 'sent'])
             slots = [i for i, e in enumerate(effs) if e == ['W']]
             if len(slots) == len(resps):
                 for k, (i, r) in enumerate(zip(slots, resps)):
@@ -605,7 +624,7 @@ def run_burst(case):
         problems = []
         nresp = {}
         for n, data in sorted(written.items()):
-            rs = decode_responses(data, methods.get(n, []))
+            rs = decode_responses(data, methods.get(n, []), [rec[2] for rec in probe.log if rec[0] == 'sent' and rec[1] == n])
             nresp[str(n)] = [r[:4] for r in rs]
             problems += ['connection %d: %s' % (n, r[4]) for r in rs if r[4]]
             for k2, r in enumerate(rs):
@@ -666,7 +685,8 @@ def bases(rng):
 TLS_HELLO = bytes([0x16, 0x03, 0x01, 0x00, 0x2f, 0x01, 0x00, 0x00, 0x2b, 0x03, 0x03]) + bytes(range(32)) + b'\x00\x00\x02\x13\x01\x01\x00'
 SSL2_HELLO = bytes([0x80, 0x2e, 0x01, 0x00, 0x02, 0x00, 0x15, 0x00, 0x00, 0x00, 0x10]) + bytes(range(35))
 
-MUTATIONS = ['hdr-nonlatin1', 'hdr-nonlatin1', 'host-ctl', 'line-parts', 'line-version', 'line-major', 'line-fragment', 'hdr-nocolon', 'hdr-name', 'hdr-oversized',
+MUTATIONS = ['hdr-nonlatin1', 'hdr-nonlatin1', 'host-ctl', 'hdr-leading-ws', 'hdr-leading-ws', 'hdr-fold', 'reflect-ctl', 'reflect-ctl',
+             'line-parts', 'line-version', 'line-major', 'line-fragment', 'hdr-nocolon', 'hdr-name', 'hdr-oversized',
              'cl-alpha', 'cl-negative', 'cl-conflict', 'chunk-size', 'escape', 'escape-hdr', 'nul', 'tls', 'ssl2',
              'no-host', 'host-port', 'byteflip', 'insert', 'empty-read', 'dotdot', 'url-bracket']
 
@@ -688,6 +708,45 @@ def mutate(rng, kind):
 
 def mutate_get(rng, kind):
     host = [('Host', 'localhost:8000')]
+    if kind == 'hdr-leading-ws':
+        # whitespace between the request line and the first header field (RFC 7230 3: reject): the FIRST header line is led by
+        # SP / HTAB, possibly carrying a framing or routing field that would be hidden from a stricter intermediary
+        ws = rng.choice([' ', '\t', '  ', ' \t', '\t\t '])
+        fld = rng.choice([('Host', 'localhost:8000'), ('X-A', 'b'), ('Content-Length', '5'), ('Transfer-Encoding', 'chunked'), ('Host', 'evil')])
+        rest = [h for h in [('Host', 'localhost:8000'), ('Accept', '*/*')] if h[0] != fld[0] or rng.random() < 0.5]
+        rng.shuffle(rest)
+        body = b'hello' if fld[0] == 'Content-Length' else (b'5\r\nhello\r\n0\r\n\r\n' if fld[0] == 'Transfer-Encoding' else b'')
+        meth = 'POST' if body else 'GET'
+        head = ('%s %s HTTP/1.1\r\n%s%s: %s\r\n' % (meth, rng.choice(['/', '/echo']), ws, fld[0], fld[1])).encode('latin-1')
+        for h in rest:
+            head += ('%s: %s\r\n' % h).encode('latin-1')
+        return head + b'\r\n' + body, 'malformed'
+    if kind == 'hdr-fold':
+        # a whitespace-led line AFTER a field is an obs-fold continuation of that field's value (middle / last position), also when
+        # it looks like a field of its own
+        ws = rng.choice([' ', '\t', '  ', ' \t'])
+        cont = rng.choice(['continued', 'Host: evil', 'Content-Length: 5', 'X: y'])
+        hs = ['Host: localhost:8000', 'X-A: b', 'Accept: */*']
+        pos = rng.choice([1, 2, 3])
+        hs.insert(pos, ws + cont)
+        if rng.random() < 0.3:
+            hs.insert(pos + 1, rng.choice([' ', '\t']) + 'more')
+        return ('GET %s HTTP/1.1\r\n%s\r\n\r\n' % (rng.choice(['/', '/echo']), '\r\n'.join(hs))).encode('latin-1'), 'any'
+    if kind == 'reflect-ctl':
+        # request data that the server reflects into the response head: cookies come back as Set-Cookie, path and query as
+        # Location; escapes that the parser's unicode_escape decoding turns into CR / LF / NUL / other controls, and raw controls
+        inj = rng.choice(['\\r\\nX-Inj: 1', '\\nSet-Cookie: pwn=1', '\\x0d\\x0aX-Inj: 1', '\\x00', '\\x0b', '\\x7f', '\x00', '\x01', '\\u1234\\r\\nX: y', '\\x1f'])
+        r = rng.random()
+        target = rng.choice(['/', '/', '/nothere', '//x', '/a/../b', '/echo'])
+        hs = [('Host', 'a')] if rng.random() < 0.85 else []
+        ver = rng.choice(['HTTP/1.1', 'HTTP/1.1', 'HTTP/1.0', 'HTTP/2.0'])
+        if r < 0.6:
+            hs.append(('Cookie', rng.choice(['a="x%s"', 'a="%s"; b=c', 'sid=1; a="x%sy"', 'a=x%s']) % inj))
+        elif r < 0.85:
+            target = rng.choice(['//x?q=%s', '/a/../b?%s=1', '//x%s']) % inj.replace(' ', '')
+        else:
+            hs.append((rng.choice(['Referer', 'X-Forwarded-For', 'Accept-Language', 'Origin']), 'v' + inj))
+        return req_bytes(rng.choice(['GET', 'HEAD']), target, ver, headers=hs), 'any'
     if kind == 'host-ctl':
         # control characters / spaces in the Host header (raw or as escapes the parser decodes), with canonical and
         # non-canonical paths (the latter used to reflect them into Location)
@@ -777,7 +836,7 @@ def in_domain(head):
     return b'\\' not in blk
 
 
-HEAD_MALFORMED = ('line-parts', 'line-version', 'hdr-nocolon', 'hdr-name')
+HEAD_MALFORMED = ('line-parts', 'line-version', 'hdr-nocolon', 'hdr-name', 'hdr-leading-ws')
 SEPS = [' ', ' ', ' ', '  ', '\t', '\x0b', '\x1c', '\x1f', '\n', '', '\r']
 VERSIONS = ['HTTP/1.1', 'HTTP/1.0', 'HTTP/123', 'HTTP/12', 'HTTP/1x1', 'HTTP/1.1\n', 'HTTP/1.1\n\n', 'HTTP/1\n1', 'HTTP/1\r1', 'HTTP/1.1 ',
             'HTTP/1.1 x', 'HTTP/.1', 'HTTP/1.', 'HTTP/11.10', 'http/1.1', 'HTTP/1.1\t', 'HTTP/1..1', 'HTTP/1.1.1', 'HTTP/', 'HTTP/1:1#']
@@ -801,6 +860,9 @@ def head_case(rng):
     elif r < 0.9:
         line = rng.choice(['GET / HTTP/1.1', 'HEAD /x HTTP/1.0'])
         hl = [rng.choice(HLINES) if rng.random() < 0.4 else rng.choice(HLINES[:3]) for _ in range(rng.randint(1, 4))]
+        if rng.random() < 0.45:       # a whitespace-led line at the first / a middle / the last position
+            hl.insert(rng.choice([0, 0, rng.randint(0, len(hl)), len(hl)]),
+                      rng.choice([' ', '\t', '  ', ' \t']) + rng.choice(['Host: a', 'A: c', 'folded', 'Content-Length: 5', ': v', 'A']))
     else:
         line = rng.choice(['GET / HTTP/1.1', 'GARBAGE', 'GET /', '', ' '])
         hl = []
@@ -1104,7 +1166,10 @@ class C14(Prop):
             for n, ks in obs['keys'].items():
                 # the application's answers are an oracle fixed to 200 here; a dispatch that re-uses the pair of an earlier,
                 # already rejected message (reads handled before the first cascade ran) is answered with that pair's status
-                if len([x for x in ks if x == 4000000]) != len([x for x in ks if 2000000 <= x < 3000000 and (x - 2000000) // 80 == 200]):
+                # (the pair object is shared: a later rejection on the re-used pair also rewrites the status of the earlier answer)
+                written = sorted((x - 2000000) // 80 for x in ks if 2000000 <= x < 3000000)
+                meant = sorted([200] * len([x for x in ks if x == 4000000]) + [x - 1000000 for x in ks if 1000000 <= x < 2000000])
+                if written != meant:
                     return None
             ops, k = [], 0
             for o in case['ops']:
